@@ -80,26 +80,28 @@ def _summary(out):
 
 # (name, base cfg, constants, expected: "ok" or the invariant that MUST be violated, stage)
 def _design_jobs(q):
+    small = {"MaxDepth": 2} if q else {}
+    pairc = {"ZoneNulls": "FALSE"} if q else {}
+    clipc = {"Coords": "{0}"} if q else {}
     jobs = [
-        ("chain", "BoundZoneMC", {}, "ok", 2),
-        ("chain_ascoded", "BoundZoneMC_ascoded", {}, "ok", 2),
-        ("f1", "BoundZoneMC_f1", {}, "RegionEnclosed", 1),
-        ("f2", "BoundZoneMC_f2", {}, "BBoxCoversRegion", 1),
-        ("fixdiff", "BoundZoneMC_fixdiff", {}, "RegionEnclosed", 1),
-        ("fixswap", "BoundZoneMC_fixswap", {}, "RegionEnclosed", 1),
-        ("pair", "BoundZoneMC_pair", {}, "ok", 2),
-        ("pair_ascoded", "BoundZoneMC_pair_ascoded", {}, "ok", 2),
-        ("def", "BoundZoneMC_def", {"Margin": 0} if q else {}, "ok", 2),
-        ("clip", "BoundZoneMC_clip", {"Coords": "{0}"} if q else {}, "ok", 1),
-        ("clip_ascoded", "BoundZoneMC_clip_ascoded", {"Coords": "{0}"} if q else {}, "ok", 1),
+        ("chain", "BoundZoneMC", small, "ok", 2),
+        ("chain_ascoded", "BoundZoneMC_ascoded", small, "ok", 2),
+        ("f1", "BoundZoneMC_f1", small, "RegionEnclosed", 1),
+        ("f2", "BoundZoneMC_f2", small, "BBoxCoversRegion", 1),
+        ("pair", "BoundZoneMC_pair", pairc, "ok", 2),
+        ("pair_ascoded", "BoundZoneMC_pair_ascoded", pairc, "ok", 2),
+        ("def", "BoundZoneMC_def", {"Margin": 0, "ZoneNulls": "FALSE"} if q else {}, "ok", 2),
+        ("clip", "BoundZoneMC_clip", clipc, "ok", 1),
+        ("clip_ascoded", "BoundZoneMC_clip_ascoded", clipc, "ok", 1),
         ("f3", "BoundZoneMC_f3", {"Coords": "{0}"}, "ClipRegionEnclosed", 1),
     ]
-    muts = ["growhole", "hullinterior", "andflag"] if q else ["growhole", "shrinkkeeps", "hullinterior", "smaller",
-                                                             "andflag", "orflag"]
+    muts = ["growhole", "andflag"] if q else ["growhole", "shrinkkeeps", "hullinterior", "smaller", "andflag", "orflag"]
     for m in muts:
         jobs.append(("mut_" + m, "BoundZoneMC_mut_" + m, {"MaxDepth": 2}, "StepsSound", 1))
     if not q:
         jobs += [
+            ("fixdiff", "BoundZoneMC_fixdiff", {}, "RegionEnclosed", 1),
+            ("fixswap", "BoundZoneMC_fixswap", {}, "RegionEnclosed", 1),
             ("chain_semi", "BoundZoneMC", {"WithSemi": "TRUE", "LeafKind": '"boxes"'}, "ok", 2),
             ("chain_semi_ascoded", "BoundZoneMC_ascoded", {"WithSemi": "TRUE", "LeafKind": '"boxes"'}, "ok", 2),
             ("chain_2d", "BoundZoneMC", {"Dims": 2, "Coords": "{0, 1}", "LeafKind": '"boxes"', "MaxDepth": 2}, "ok", 2),
@@ -111,6 +113,9 @@ def _design_jobs(q):
             ("clip_3d", "BoundZoneMC_clip_ascoded",
              {"Dims": 3, "Coords": "{0}", "Radii": "{3}", "Margin": 3, "MaxDepth": 2}, "ok", 2),
         ]
+    # binding demonstrations (bin/mutcheck) do not need the code-free design runs again
+    if os.environ.get("VERIF_X06_ONLY") == "binding":
+        return []
     return jobs
 
 
@@ -122,7 +127,7 @@ def _gen_jobs(q):
             ("p1", "pairs", dict(one, ZoneNulls="FALSE"), 4),
             ("c1", "chains", dict(one, LeafKind='"solid"', MaxDepth=3), 2),
             ("k2", "clips", {"Coords": "{0}", "Dims": 2, "Radii": "{4}", "Margin": 4, "MaxDepth": 2}, 1),
-            ("u1", "units", {"Coords": "{0, 2, 4}", "Dims": 1, "ProbeOdd": "TRUE", "MaxDepth": 2}, 1),
+            ("u1", "units", {"Coords": "{0, 2, 4}", "Dims": 1, "ProbeOdd": "TRUE", "MaxDepth": 2}, 2),
         ]
     return [
         ("p1", "pairs", dict(one, ZoneNulls="TRUE"), 4),
@@ -299,7 +304,7 @@ def run(ctx):
     nrand = 1 if q else 4
     for i in range(nrand):
         out = ctx.path("rand%d.ndjson" % i)
-        cnt = 300 if q else 1500
+        cnt = 200 if q else 1500
         args = ["rand", (ctx.seed * 31 + i) % 2000000000, cnt, 3 + (i % 2), out, sexp, off]
         traces.append(("rand%d" % i, "rand", _run_harness(args, out), args, cnt))
 
@@ -407,6 +412,7 @@ def run(ctx):
 
     ctx.coverage.update({
         "states": max(1, states), "transitions": max(1, transitions),
+        "design_skipped": os.environ.get("VERIF_X06_ONLY") == "binding",
         "traces_validated_against_impl": accepted,
         "samples": samples or [{"note": "no sample collected"}],
         "design": design_cov,
